@@ -23,7 +23,7 @@ import (
 
 // concrete character of each abstract symbol
 var concrete = map[string]string{"a": "a", "A": "A", "_": "_", "7": "7", "dol": "$", "sp": " ", "nl": "\n", "vt": "\v", "ls": "\u2028", "bom": "\ufeff",
-	"ee": "é", "as": "\U0001F600", "hi": "\U0002070E", "nul": "\x00", "bs": "\x08", "cr": "\r", "dle": "\x10"}
+	"ee": "é", "as": "\U0001F600", "hi": "\U0002070E", "nul": "\x00", "bs": "\x08", "cr": "\r", "dle": "\x10", "hy": "-"}
 
 func patternText(tokens []string) string {
 	var b strings.Builder
@@ -104,7 +104,7 @@ func observe(p patVec, subjects []string) (l line, text string) {
 
 // Check is the C08 entry point.
 func Check(r *core.Run) error {
-	r.SetRule("spec/Regex.tla gives the ECMA-262 end-position semantics M(ast, s, i) over a 17-symbol class-witness alphabet (word chars, $, space, LF, VT, U+2028, U+FEFF, U+00E9, two astral characters one above U+1FFFF, NUL, BS) and renders each AST to pattern text. " +
+	r.SetRule("spec/Regex.tla gives the ECMA-262 end-position semantics M(ast, s, i) over an 18-symbol class-witness alphabet (word chars, $, space, LF, VT, U+2028, U+FEFF, U+00E9, two astral characters one above U+1FFFF, NUL, BS) and renders each AST to pattern text. " +
 		"TLC checks algebraic laws of M on every (AST, subject) and enumerates all ASTs of the chosen tiers (atoms incl. \\x \\u \\u{} \\c \\0 identity escapes and bracket expressions; quantifiers greedy/lazy/{n,m}; groups; alternation/concatenation; look-around and back-references as must-fall-back constructs) " +
 		"and all subjects up to the length bound. Each pattern is compiled by ogenregex.Compile; engine (%T), String() and MatchString on every subject are logged next to regexp2 ECMAScript|Unicode (guard); TLC recomputes Search(ast, s) and alarms only when its verdict and the guard agree against ogen. " +
 		"Non-trivial = pattern with at least one escape, class or constructor; distinct = (root constructor, atom kind, engine, any-mismatch).")
